@@ -93,6 +93,10 @@ package config
 //@ func (*Config).merge
 //@   requires cfg != nil
 //@   modifies *
+// C10: variables defined at the top level of a configuration file survive the merge into the
+// destination configuration (mergo keeps the destination's container and drops the source's: defect D12)
+//@   callsite Container.Merge
+//@     requires #C10.config-level-variables-are-merged recv == cfg.Variables && arg0 == src.Variables
 //@ func buildFromDefinition
 //@   requires def != nil && lc != nil
 //@   modifies *
